@@ -201,6 +201,21 @@ CHECKS.update({
              "the property's 5; include expansion is C18's; operators the analyser rejects with a panic are C03 findings and skipped here.",
         technique=S2, design="6/C06"),
 })
+CHECKS.update({
+    "C17": dict(
+        text="(a) layout: in 16 base programs (valid and with semantic faults, incl. annotations, pragmas, include of stdgates, timing "
+             "literals) every gap between tokens holds 1-2 trivia tokens whose kind (whitespace / comment) and character are solver "
+             "variables; to_input, the parser, intersperse_trivia and ALL of syntax_to_semantic run from MIR on the symbolic layout and the "
+             "graph, symbol table and diagnostic kinds are proved equal to the canonical layout's on every path. (b) renaming: every user "
+             "identifier is a symbolic letter constrained injective and different from built-in / standard gate names; the result is proved "
+             "equal to the base result with the same ids and each symbol (and each diagnostic payload) named by its variable. (c) one pass: "
+             "for P and P + S (12 suffix statements with symbolic names) statements, symbols and diagnostics of P are a prefix. (d) "
+             "determinism: the MIR call graph from syntax_to_semantic (446 functions) contains no hash-map iteration, clock, randomness, "
+             "environment, atomics or thread-local access; the map model refuses iteration.",
+        note="Trusted: tree / map / string models, MIR dump, z3; the lexer maps layouts to the token tables used here (C14, C15). Bounds: "
+             "16 base programs, 1 (quick) / 1-2 trivia tokens per gap with one ASCII character each, one-letter names.",
+        technique=S2, design="6/C17"),
+})
 
 NOT_YET = {}
 
